@@ -487,3 +487,89 @@ def rule_parallel_save(ctx, rep, config="c-lib"):
         rep.violation("R16-parallel-save", key, "the saved sets start at pl[%r] but their token numbers are copied from pl_tok_nums[%r]: after a restore every set of the "
                       "tail carries the token number of its neighbour -- TERM nodes with the attribute of another token, or token number -1 (toks[-1] read)" % (start, tix),
                       where=c.where(), witness=[c.where()])
+
+
+def rule_frontiers(ctx, rep, config="c-lib"):
+    rep.rule("R16-frontiers", "error_recovery moves two frontiers while it tries recovery states.  (1) The block that advances the back frontier works with a temporary "
+                              "parser-list position and token position: every file-scope position it assigns (pl_curr, tok_curr) is set back, on every path out of the "
+                              "block, to the value it had when the block was entered.  (2) The state that starts one token later is pushed whenever a token is left, "
+                              "the end marker included: the push is controlled by  position < toks_len  for the advanced position (not by a smaller bound -- `ignore "
+                              "everything up to the end' is the recovery of last resort)")
+    from ..model import strip_int_casts
+    from .r5 import _controlling_conditions
+    from .r14 import path_exists
+    p = ctx.prog(config)
+    f = p.fn("error_recovery")
+    rep.cover(p, [f.name])
+    # (1) the back-frontier block: the blocks controlled by `back_pl_frontier > 0' (a phi / local compared with 0, true side), identified by the call of find_error_pl_set
+    fe = [c for c in f.calls() if c.callee == "find_error_pl_set" and any(L for L in f.loops() if c.block.name in L["body"])]
+    if not fe:
+        raise AnalysisBroken("R16-frontiers: the advance of the back frontier (find_error_pl_set inside the loop of error_recovery) was not found")
+    c0 = fe[-1]
+    region = set(b.name for b in f.rblocks() if f.dominates(c0.block.name, b.name))
+    exits = set(s_ for bn in region for s_ in f.bmap[bn].succs if s_ not in region)
+    n = 0
+    for gname in ("pl_curr", "tok_curr"):
+        sts = [s_ for s_ in f.all_insts() if s_.op == "store" and s_.block.name in region and resolve_addr(f, s_.ops[1]).root == ("g", gname)
+               and not resolve_addr(f, s_.ops[1]).steps]
+        if not sts:
+            continue
+        n += 1
+        key = "error_recovery/back-frontier-restores-%s" % gname
+
+        def is_saved(v):
+            x = f.inst(strip_int_casts(f, v))
+            while x is not None and x.op == "phi":
+                nx = [f.inst(strip_int_casts(f, w)) for (w, _) in x.d["incoming"]]
+                nx = [y for y in nx if y is not None]
+                x = nx[0] if len(set(id(y) for y in nx)) == 1 else None
+            return x is not None and x.op == "load" and resolve_addr(f, x.ops[0]).root == ("g", gname) and x.block.name not in region or \
+                (x is not None and x.op == "load" and resolve_addr(f, x.ops[0]).root == ("g", gname) and x.block.name == c0.block.name and x.idx < c0.idx)
+        restores = [s_ for s_ in sts if is_saved(s_.ops[0])]
+        dirty = [s_ for s_ in sts if not is_saved(s_.ops[0])]
+        bad = None
+        for d in dirty:
+            # a path from the temporary assignment out of the block that avoids every restore
+            for ex in exits:
+                tgt = f.bmap[ex].insts[0] if f.bmap[ex].insts else f.bmap[ex].term
+                if tgt is not None and path_exists(f, d, tgt, restores + [x for x in dirty if x is not d and False]):
+                    later = [x for x in dirty if x is not d and path_exists(f, d, x, restores)]
+                    bad = (d, ex)
+        if bad and not restores:
+            rep.violation("R16-frontiers", key, "the block that advances the back frontier assigns %s (%s) and does not set it back: the state that was popped before is then "
+                          "tried from another position than the one its cost was computed for (the positions reported for the recovery run past the tokens)" % (
+                              gname, bad[0].where()), where=bad[0].where(), witness=[bad[0].where()])
+        elif bad:
+            rep.violation("R16-frontiers", key, "the block that advances the back frontier can be left with %s still holding its temporary value (assigned at %s)" % (
+                gname, bad[0].where()), where=bad[0].where(), witness=[bad[0].where()])
+        else:
+            rep.ok("R16-frontiers", key, sample={"temporary": [d.where() for d in dirty][:2], "restored_at": [r.where() for r in restores][:2]})
+    # (2) the head frontier
+    pushes = [c for c in f.calls() if c.callee == "push_recovery_state"]
+    head = None
+    for c in pushes:
+        conds = _controlling_conditions(f, c.block.name)
+        if not conds:
+            continue
+        cc, pol = conds[0]      # the innermost test: the guard of this push itself
+        bl = expr.lin(f, cc.ops[1], 0, 1)
+        if any(k.endswith("@toks_len]") for k in bl.t) and cc.d["pred"] in ("slt", "sle", "sgt", "sge", "ult", "ule"):
+            head = (c, cc, pol)
+    if head is None:
+        raise AnalysisBroken("R16-frontiers: the push of the state that starts one token later (controlled by a comparison with toks_len) was not found")
+    c, cc, pol = head
+    n += 1
+    bl = expr.lin(f, cc.ops[1], 0, 1)
+    pr = cc.d["pred"]
+    if not pol:
+        pr = {"slt": "sge", "sge": "slt", "sle": "sgt", "sgt": "sle"}.get(pr, pr)
+    # position < toks_len   (or  position <= toks_len - 1)
+    okh = (pr == "slt" and bl.c == 0 and list(bl.t.values()) == [1]) or (pr == "sle" and bl.c == -1 and list(bl.t.values()) == [1])
+    key = "error_recovery/head-frontier-up-to-end-marker"
+    if okh:
+        rep.ok("R16-frontiers", key, sample={"push": c.where(), "guard": cc.where()})
+    else:
+        rep.violation("R16-frontiers", key, "the state that starts one token later is pushed under `position %s %r', not while a token (the end marker included) is left: no "
+                      "state ever starts at the end marker, and an input whose only repair is to ignore everything up to the end finds no recovery (best_state is used "
+                      "unset: start and stop are -1)" % ({"slt": "<", "sle": "<=", "sge": ">=", "sgt": ">"}.get(pr, pr), bl), where=cc.where(), witness=[cc.where(), c.where()])
+    rep.floor("R16-frontiers", "frontier obligations", n, 3)
